@@ -256,7 +256,10 @@ def exprlayout_gen(tier):
         for ti, toks in enumerate(EXPR_TOKS):
             one = " ".join(toks) + " ;"
             lays = [("one-line", one), ("leading-LF", "\n" + one), ("all-LF", "\n".join(toks) + "\n;"), ("all-CRLF", "\r\n".join(toks) + "\r\n;\r\n"),
-                    ("trailing-LF", " ".join(toks) + "\n;\n")]
+                    ("trailing-LF", " ".join(toks) + "\n;\n"),
+                    # the end of the text ends the expression as well as a separator does
+                    ("no-terminator", " ".join(toks)), ("LF-terminator", " ".join(toks) + "\n"), ("CRLF-terminator", " ".join(toks) + "\r\n"),
+                    ("all-LF-no-terminator", "\n".join(toks) + "\n")]
             for k in range(len(toks)):
                 lays.append(("LF-after-%d" % k, " ".join(toks[:k + 1]) + "\n" + " ".join(toks[k + 1:]) + " ;"))
                 if tier == "thorough" or k % 2 == 0:
